@@ -885,7 +885,15 @@ query = `patch` with full ops; answer = verdict + length and FNV hash of the byt
             }
         }
         // "checksum of another string in play": sometimes set it to what the corrupted patch would produce
-        let (r0, out0) = apply_patch_sync(&basis2, &d, false);
+        // (guarded: seed C05-N made `patch` panic on a delta whose header says block size 0 — the panic has to be a finding, not the end of the harness)
+        let (r0, out0) = match guarded(|| apply_patch_sync(&basis2, &d, false)) {
+            Ok(x) => x,
+            Err(()) => {
+                let l = w.case(&delta_query(false, &basis2, &d, "-"), "PANIC", true);
+                w.fail(l, "patch-panic", &format!("sync patch (no verification) panicked (case {i}, corruptions {kinds:?}, block_size {})", d.block_size));
+                continue;
+            }
+        };
         if ncorr > 0 && r0.is_ok() && rng.coin(1, 6) {
             d.checksum = StrongHash::compute(&out0);
         }
